@@ -4,22 +4,35 @@ Every rule works on the *inlined view* (core/inline_stmt.py) of a public entry p
 names, local variable names or one loop idiom:
 
   C11.R1  entry = the matcher method Rule.assert_applies runs on the evaluable.  In its view: ModuleNameConverter.convert runs
-          unconditionally before every graph query, against the evaluable being queried, on the requirement as given to the
-          constructor; the queries, and the detectors / message generators built outside the view, receive values whose provenance
-          (c11_prov.py) is this evaluation's conversion of both sides - never pre-state (raw or stale).  State kept between
-          evaluations is only a violation if Rule.assert_applies does not create a fresh matcher per call.
+          unconditionally before every graph query, against the evaluable being queried (the parameter, or a local / field that
+          provably holds it), on the requirement as given to the constructor; the queries, and the detectors / message generators
+          built outside the view, receive values whose provenance (c11_prov.py) is this evaluation's conversion of both sides -
+          never pre-state (raw or stale).  State kept between evaluations is only a violation if Rule.assert_applies does not
+          create a fresh matcher per call (a factory stored in place of the matcher class is followed: it must create the matcher
+          it returns).  A conversion under a condition on the *rule* (not on the matcher's state) is followed branch by branch:
+          without the conversion a side may stay as specified only if the branch shows that it holds no regex filter, and may
+          share the other side's conversion only if the branch shows that both specifications are equal.  The class view
+          (c11_lib.class_view) takes apart helper calls in argument position, conditional / boolean expressions around them,
+          constructors of helper classes that own a part of the pipeline and try/except wrappers; a helper that hands out
+          conversions without being taken apart (a generator) stands for the conversions it makes; a graph query that is
+          reachable from the entry point but not shown by the view is undecided, never passed over.
   C11.R2  view of ModuleNameConverter.convert, described as collections (c11_coll.py): result[0] is exactly
           {ModuleNameFilter(m) | m in arch.modules, f in modules, f regex, re.match(f.identifier, m)} + {f | f in modules, f not regex};
           no early exit from the scan; ImpossibleMatch is raised iff the set of never-matched patterns (all patterns minus matched
           ones, in any of its spellings) is non-empty, and the test dominates the return.
   C11.R3  view of Rule.have_name_containing: the list stored into the rule's state is
-          {ModuleNameRegexFilter(name=convert_partial_match_to_regex(n)) | n in names}, unfiltered, stored on every path.
-  C11.R5  the ImpossibleMatch raised by the conversion reaches the caller of Rule.assert_applies: no `except` clause (by class, base
-          class or bare), `contextlib.suppress` or returning `finally` around the conversion (in the matcher view) or around the
-          matcher call (in the view of Rule.assert_applies) keeps it from propagating as an error.
+          {ModuleNameRegexFilter(name=convert_partial_match_to_regex(n)) | n in names}, unfiltered, stored on every path - and it is
+          stored exactly like Rule.have_name_matching stores its filters: same state fields, same way (replace / extend),
+          equivalent conditions, so that only the pattern text differs between the partial-name form and its regex translation.
   C11.R4  views of the three public queries of EvaluableArchitecture: the result has one entry per element of the given collections
           (no filter), each value is a graph search over (graph, own key, whole given collections) only, nothing is carried from one
-          key to the next, every entry is stored under its own key unconditionally.
+          key to the next, every entry is stored under its own key unconditionally.  A value computed by a helper that cannot be
+          replaced by its body is followed: the helper must reach a graph search, be given the key and whole collections only, and
+          change nothing that outlives the call (fields of a shared object, parameters, closure / module variables).
+  C11.R5  the ImpossibleMatch raised by the conversion reaches the caller of Rule.assert_applies: in no function on a call path from
+          Rule.assert_applies to ModuleNameConverter.convert does the call that leads on sit under an `except` clause (by class,
+          base class or bare) that does not end in raising an error, under `contextlib.suppress`, or under a `finally` that
+          returns; turning it into AssertionError counts as a verdict; a failure handed on as a value must make every caller raise.
 """
 
 from __future__ import annotations
@@ -2234,7 +2247,8 @@ def run(repo: Repo) -> Result:
         "conversion and never from state that existed before it; (R2) the conversion result is described as a set comprehension and must be "
         "{ModuleNameFilter(m) | m in arch.modules, f regex filter, re.match(f.identifier, m)} plus the non-regex filters unchanged, the scan has "
         "no early exit, and ImpossibleMatch is raised exactly when the set of never-matched patterns is non-empty, before any return; (R3) "
-        "have_name_containing stores {ModuleNameRegexFilter(convert_partial_match_to_regex(n)) | n in names}, unfiltered, on every path; (R4) "
+        "have_name_containing stores {ModuleNameRegexFilter(convert_partial_match_to_regex(n)) | n in names}, unfiltered, on every path, into the "
+        "same state fields, in the same way and under equivalent conditions as have_name_matching; (R4) "
         "each of the three public queries stores one graph search per element of the given collections, computed from the graph, its own key "
         "and whole given collections only, with no state carried between keys, so a batch is the conjunction of the single rules; (R5) nothing between "
         "the conversion and the caller of Rule.assert_applies catches the ImpossibleMatch of an unmatched regex and goes on to a verdict. Together with "
